@@ -449,6 +449,19 @@ func rtpcbCases(quick bool) []protox.Case {
 			}
 		}
 		recq(nil)
+		// the same histories (one shorter) for a publisher that set up only ONE of its two tracks, over UDP:
+		// packets of the other track's payload type and reports for its SSRC still arrive on these sockets
+		if !hv {
+			saveMax := maxL
+			maxL--
+			for _, ust := range []string{"udp-video-only", "udp-audio-only"} {
+				save := st
+				st = ust
+				recq(nil)
+				st = save
+			}
+			maxL = saveMax
+		}
 		sr := rtcpSr()
 		for _, m := range truncs(sr, 1) {
 			cs = append(cs, mk("rtpcb", st, "rtcp-truncated", m.desc, packItems(C(m.b)), -1))
